@@ -582,9 +582,10 @@ func rbGenSpec(t *rapid.T, o rbGenOpts) *rbSpec {
 		var ticks int64
 		n := 0
 		sinceKey := 0
+		lastKey := time.Duration(0)
 		for {
 			d := rbTicksToDur(ticks, clock0)
-			if d >= total && n >= 2 {
+			if d >= total && n >= leadingNonSync+2 { // at least two units from the first key frame on
 				break
 			}
 			sync := true
@@ -600,11 +601,19 @@ func rbGenSpec(t *rapid.T, o rbGenOpts) *rbSpec {
 				if n >= leadingNonSync {
 					sinceKey++
 				}
+				// never leave more than half a segment duration without a key frame (a segment switch needs one)
+				if !sync && n >= leadingNonSync && d-lastKey >= spec.SegDur/2 {
+					sync = true
+					sinceKey = 1
+				}
 				// occasional irregular key frame
 				if !sync && n >= leadingNonSync && rapid.IntRange(0, 24).Draw(t, "xkey") == 0 {
 					sync = true
 					sinceKey = 1
 				}
+			}
+			if sync {
+				lastKey = d
 			}
 			size := rapid.IntRange(0, maxSize).Draw(t, "vsize")
 			evs = append(evs, ev{u: rbUnit{Track: 0, Ticks: ticks, Sync: sync, Size: size}, at: d})
